@@ -127,6 +127,41 @@ func (b *builder) emitExpr(w *writer, i int, indent string) []frame {
 			w.put("([x, x], key = " + next + "))")
 		}
 		return []frame{{name: me, p: p}, {name: l.Call, builtin: true}}
+	case "host-index", "host-attr", "host-binary", "host-rbinary", "host-unary", "host-cmp":
+		// a host value re-enters Starlark from a non-call operation: the frame of this function is at that operation
+		hv := "computed(" + next + ", x)"
+		var p pos
+		switch l.Call {
+		case "host-index":
+			w.put("(" + sp + hv)
+			p = w.here()
+			w.put("[0])")
+		case "host-attr":
+			w.put("(" + sp + hv)
+			p = w.here()
+			w.put(".val)")
+		case "host-binary":
+			w.put("(" + sp + hv + " ")
+			p = w.here()
+			w.put("+ 1)")
+		case "host-rbinary":
+			w.put("(" + sp + "1 ")
+			p = w.here()
+			w.put("* " + hv + ")")
+		case "host-unary":
+			w.put("(" + sp)
+			p = w.here()
+			w.put("-" + hv + ")")
+		case "host-cmp":
+			w.put("(" + sp + "1 if " + hv + " ")
+			p = w.here()
+			w.put("< " + hv + " else 2)")
+		case "host-in":
+			w.put("(" + sp + "1 if 1 ")
+			p = w.here()
+			w.put("in " + hv + " else 2)")
+		}
+		return []frame{{name: me, p: p}}
 	case "cond":
 		// the condition, written later in the text, is evaluated first
 		w.put("(" + sp + next)
@@ -369,7 +404,7 @@ func checkChain(c Case) error {
 			return nil, fmt.Errorf("no module %s", module)
 		}
 		if modGlobals == nil {
-			g, err := starlark.ExecFileOptions(opts, &starlark.Thread{Name: "c16-load"}, "m.star", modSrc, nil)
+			g, err := starlark.ExecFileOptions(opts, &starlark.Thread{Name: "c16-load"}, "m.star", modSrc, hostEnv)
 			if err != nil {
 				return nil, err
 			}
@@ -377,7 +412,7 @@ func checkChain(c Case) error {
 		}
 		return modGlobals, nil
 	}
-	_, err = starlark.ExecFileOptions(opts, thread, "prog.star", mainSrc, nil)
+	_, err = starlark.ExecFileOptions(opts, thread, "prog.star", mainSrc, hostEnv)
 	if err == nil {
 		return fmt.Errorf("program did not fail (template defect?)\n%s", clipSrc(mainSrc))
 	}
@@ -432,7 +467,7 @@ func checkChain(c Case) error {
 	if _, err := starlark.ExecFileOptions(opts, warm, "warm.star", warmSrc, nil); err != nil {
 		return fmt.Errorf("warm-up program failed: %v", err)
 	}
-	_, err2 := starlark.ExecFileOptions(opts, warm, "prog.star", mainSrc, nil)
+	_, err2 := starlark.ExecFileOptions(opts, warm, "prog.star", mainSrc, hostEnv)
 	var ee2 *starlark.EvalError
 	if !errors.As(err2, &ee2) {
 		return fmt.Errorf("on a re-used thread the program does not fail with an EvalError: %v", err2)
@@ -528,7 +563,49 @@ var subChain = vk.Register("chain", checkChain)
 
 var failKinds = []string{"pluschain-str", "pluschain-list", "pluschain-multiline", "pluschain-mid", "pluschain-tuple", "binary", "unary", "index", "attr", "call", "div", "cmp", "in", "dictkey", "arity", "fail", "builtin",
 	"uglobal", "unpack", "ulocal", "for", "augindex", "setfield", "ufree", "ufree-lambda", "ucell"}
-var callKinds = []string{"plain", "plain", "comp", "default", "sorted", "min", "max", "cond"}
+var callKinds = []string{"plain", "plain", "comp", "default", "sorted", "min", "max", "cond", "host-index", "host-attr", "host-binary", "host-rbinary", "host-unary", "host-cmp"}
+
+// hostVal is a host value that re-enters Starlark from operations that are not calls: computed(fn, arg)[k],
+// .val, + 1, -v, v < v, 1 in v all call fn(arg) on the thread that created it.
+type hostVal struct {
+	th  *starlark.Thread
+	fn  starlark.Callable
+	arg starlark.Value
+}
+
+func (h *hostVal) String() string        { return "computed" }
+func (h *hostVal) Type() string          { return "computed" }
+func (h *hostVal) Freeze()               {}
+func (h *hostVal) Truth() starlark.Bool  { return true }
+func (h *hostVal) Hash() (uint32, error) { return 0, fmt.Errorf("unhashable") }
+func (h *hostVal) run() (starlark.Value, error) {
+	return starlark.Call(h.th, h.fn, starlark.Tuple{h.arg}, nil)
+}
+func (h *hostVal) Attr(name string) (starlark.Value, error) { return h.run() }
+func (h *hostVal) AttrNames() []string                      { return []string{"val"} }
+func (h *hostVal) Get(k starlark.Value) (starlark.Value, bool, error) {
+	v, err := h.run()
+	return v, err == nil, err
+}
+func (h *hostVal) Binary(op syntax.Token, y starlark.Value, side starlark.Side) (starlark.Value, error) {
+	return h.run()
+}
+func (h *hostVal) Unary(op syntax.Token) (starlark.Value, error) { return h.run() }
+func (h *hostVal) CompareSameType(op syntax.Token, y starlark.Value, depth int) (bool, error) {
+	_, err := h.run()
+	return false, err
+}
+
+var hostEnv = starlark.StringDict{
+	"computed": starlark.NewBuiltin("computed", func(th *starlark.Thread, _ *starlark.Builtin, args starlark.Tuple, _ []starlark.Tuple) (starlark.Value, error) {
+		var fn starlark.Callable
+		var arg starlark.Value
+		if err := starlark.UnpackPositionalArgs("computed", args, nil, 2, &fn, &arg); err != nil {
+			return nil, err
+		}
+		return &hostVal{th, fn, arg}, nil
+	}),
+}
 
 func genCase(t *rapid.T, maxLines, maxCol, maxInsns int) Case {
 	n := 1 + vk.Uniform(t, 8)
@@ -577,13 +654,47 @@ func TestPropChains(t *testing.T) {
 	})
 }
 
+// Line gaps beyond the 15- and 16-bit marks (32767, 65535) inside one function, between functions and before the
+// top-level call: few cases, each with one huge gap.
+func TestPropHugeGaps(t *testing.T) {
+	vk.S.SetExhaustive("huge-line-gaps-x-placement", true)
+	vk.Enum(t, subChain, func(yield func(Case) bool) {
+		i := 0
+		for _, gap := range []int{32766, 32767, 32768, 40000, 65535, 65536, 70001, 131073} {
+			for place := 0; place < 5; place++ {
+				i++
+				if !vk.Mine(i) {
+					continue
+				}
+				fk := failKinds[i%len(failKinds)]
+				c := Case{Fail: fk, Order: []int{1, 0}, ModuleFrom: 2, Links: []Link{{Call: "cond", Insns: 3}, {Call: "plain", Insns: 2}}}
+				switch place {
+				case 0:
+					c.Links[1].Body = gap // inside the failing function, before its failing statement
+				case 1:
+					c.Links[0].Gap = gap // inside one expression of the calling function
+				case 2:
+					c.Links[0].PreLines = gap // between the two functions
+				case 3:
+					c.TopGap = gap
+				case 4:
+					c.Links[0].Body, c.Links[1].Body = gap, gap/2
+				}
+				if !yield(c) {
+					return
+				}
+			}
+		}
+	})
+}
+
 // Every (link kind x failure kind) pair at least once, small layout: exhaustive over the two catalogues.
 func TestPropCatalogue(t *testing.T) {
 	vk.S.SetExhaustive("catalogue-linkkind-x-failkind-x-lambda", true)
 	vk.Enum(t, subChain, func(yield func(Case) bool) {
 		i := 0
 		for _, fk := range failKinds {
-			for _, ck := range []string{"plain", "comp", "default", "sorted", "min", "max", "cond"} {
+			for _, ck := range []string{"plain", "comp", "default", "sorted", "min", "max", "cond", "host-index", "host-attr", "host-binary", "host-rbinary", "host-unary", "host-cmp"} {
 				for _, lam := range []bool{false, true} {
 					i++
 					if !vk.Mine(i) {
